@@ -1127,3 +1127,96 @@ func (w *World) sharedAppends(fn *ssa.Function, depth int, seen map[*ssa.Functio
 	}
 	return out
 }
+
+// ---- typed nil (built in, C16) -----------------------------------------------------------------------------------
+//
+// An element of a decoded list may be nil (`deps: [~, x]`). Wrapped into an interface of the repository it becomes a
+// NON-nil interface value holding a nil pointer: the `!= nil` test of whoever receives it passes, and the method call
+// behind it dereferences nil - across a dynamic dispatch that no per-function sweep follows. Rule: an element taken
+// from a slice (range, index) whose type is a pointer to a struct of the repository is not converted to an interface
+// type of the repository unless a comparison of that very value with nil dominates the conversion.
+func (w *World) typedNilObligations(prop string) []*Obligation {
+	if prop != "C16" {
+		return nil
+	}
+	var out []*Obligation
+	var names []string
+	for n := range w.P.Funcs {
+		names = append(names, n)
+	}
+	sort.Strings(names)
+	scanned := 0
+	inRepoNamed := func(t types.Type) bool {
+		n, ok := t.(*types.Named)
+		return ok && n.Obj().Pkg() != nil && w.P.InRepo(n.Obj().Pkg().Path())
+	}
+	for _, n := range names {
+		fn := w.P.Funcs[n]
+		if !w.P.InRepo(FuncPkgPath(fn)) || len(fn.Blocks) == 0 {
+			continue
+		}
+		cnt := 0
+		for _, b := range fn.Blocks {
+			for _, ins := range b.Instrs {
+				mi, ok := ins.(*ssa.MakeInterface)
+				if !ok {
+					continue
+				}
+				if _, isIface := mi.Type().Underlying().(*types.Interface); !isIface || !inRepoNamed(mi.Type()) {
+					continue
+				}
+				pt, isPtr := mi.X.Type().(*types.Pointer)
+				if !isPtr || !inRepoNamed(pt.Elem()) {
+					continue
+				}
+				if _, isStruct := pt.Elem().Underlying().(*types.Struct); !isStruct {
+					continue
+				}
+				scanned++
+				// where does the pointer come from? only elements of slices / arrays / maps are suspects
+				fromElem := false
+				switch x := mi.X.(type) {
+				case *ssa.UnOp:
+					if _, ok := x.X.(*ssa.IndexAddr); ok && x.Op == token.MUL {
+						fromElem = true
+					}
+				case *ssa.Extract:
+					if _, ok := x.Tuple.(*ssa.Next); ok {
+						fromElem = true
+					}
+				case *ssa.Index, *ssa.Lookup:
+					fromElem = true
+				}
+				if !fromElem {
+					continue
+				}
+				// a nil test of the same value that dominates the conversion
+				guarded := false
+				for _, ref := range *mi.X.Referrers() {
+					bo, ok := ref.(*ssa.BinOp)
+					if !ok || (bo.Op != token.EQL && bo.Op != token.NEQ) {
+						continue
+					}
+					if c, isC := bo.Y.(*ssa.Const); !(isC && c.IsNil()) {
+						if c2, isC2 := bo.X.(*ssa.Const); !(isC2 && c2.IsNil()) {
+							continue
+						}
+					}
+					if bo.Block() != b && bo.Block().Dominates(b) || bo.Block() == b {
+						guarded = true
+					}
+				}
+				if guarded {
+					continue
+				}
+				cnt++
+				out = append(out, &Obligation{Name: fmt.Sprintf("%s/typed-nil#%d", n, cnt), Func: n, Kind: "typed-nil", Tags: []string{"C16"}, Status: "failed",
+					SrcPos: w.P.posStr(mi.Pos()), Text: "typed nil: an element of a list is not wrapped into an interface without a nil test",
+					Detail: map[string]string{"why": shortName(n) + " converts an element of a list (" + mi.X.Type().String() + ", which may be nil for a null entry of the Taskfile) to " + mi.Type().String() + " without testing it: the receiver's != nil test then passes for a nil pointer"}, Solver: "ssa-scan"})
+			}
+		}
+	}
+	out = append(out, &Obligation{Name: "typed-nil/rule", Func: "typed-nil", Kind: "typed-nil", Tags: []string{"C16"}, Status: "discharged",
+		Text: "typed nil", Detail: map[string]string{"why": fmt.Sprintf("%d conversions of repository struct pointers to repository interfaces scanned", scanned)}, Solver: "ssa-scan"})
+	return out
+}
